@@ -307,13 +307,16 @@ pubof(jose_cfg_t *cfg, const json_t *k)
     return p;
 }
 
-static void
+/* a production step that fails is reported in the "failed" list of the result (the generator
+ * then falls back to a hand-assembled object and reports the failure) */
+static json_t *mk_failed;
+
+static bool
 must(bool ok, const char *what)
 {
-    if (!ok) {
-        fprintf(stderr, "harness: c17mk: %s failed\n", what);
-        exit(3);
-    }
+    if (!ok)
+        json_array_append_new(mk_failed, json_string(what));
+    return ok;
 }
 
 static void
@@ -322,6 +325,7 @@ c_c17mk(void)
     jose_cfg_t *cfg = quiet_cfg(NULL);
     json_t *out = json_object();
     json_t *keys = json_object();
+    mk_failed = json_array();
     json_t *hs = gen(cfg, "{\"alg\":\"HS256\"}");
     json_t *kw = gen(cfg, "{\"alg\":\"A128KW\"}");
     json_t *dir = gen(cfg, "{\"alg\":\"A128GCM\"}");
@@ -346,22 +350,19 @@ c_c17mk(void)
     {
         json_t *j = json_pack("{s:s}", "payload", "cGF5bG9hZA");
         json_t *t = json_pack("{s:{s:s},s:{s:s}}", "protected", "alg", "HS256", "header", "kid", "k1");
-        must(jose_jws_sig(cfg, j, t, hs), "HS256 sig");
-        json_object_set_new(jwss, "HS256", j);
+        json_object_set_new(jwss, "HS256", must(jose_jws_sig(cfg, j, t, hs), "HS256 sig") ? j : (json_decref(j), json_null()));
         json_decref(t);
 
         j = json_pack("{s:s}", "payload", "cGF5bG9hZA");
         t = json_pack("{s:{s:s}}", "protected", "alg", "RS256");
-        must(jose_jws_sig(cfg, j, t, rsa), "RS256 sig");
-        json_object_set_new(jwss, "RS256", j);
+        json_object_set_new(jwss, "RS256", must(jose_jws_sig(cfg, j, t, rsa), "RS256 sig") ? j : (json_decref(j), json_null()));
         json_decref(t);
 
         /* general form: two signatures from one call with a key array and a shared template */
         j = json_pack("{s:s}", "payload", "cGF5bG9hZA");
         t = json_pack("{s:{s:s}}", "header", "x", "shared");
         json_t *ks = json_pack("[OO]", hs, rsa);
-        must(jose_jws_sig(cfg, j, t, ks), "multi sig");
-        json_object_set_new(jwss, "multi", j);
+        json_object_set_new(jwss, "multi", must(jose_jws_sig(cfg, j, t, ks), "multi sig") ? j : (json_decref(j), json_null()));
         json_decref(t);
         json_decref(ks);
     }
@@ -370,23 +371,19 @@ c_c17mk(void)
     json_t *jwes = json_object();
     {
         json_t *j = json_pack("{s:{s:s,s:s}}", "protected", "alg", "A128KW", "enc", "A128CBC-HS256");
-        must(jose_jwe_enc(cfg, j, NULL, kw, pt, strlen(pt)), "A128KW enc");
-        json_object_set_new(jwes, "A128KW", j);
+        json_object_set_new(jwes, "A128KW", must(jose_jwe_enc(cfg, j, NULL, kw, pt, strlen(pt)), "A128KW enc") ? j : (json_decref(j), json_null()));
 
         j = json_pack("{s:{s:s,s:s}}", "protected", "alg", "dir", "enc", "A128GCM");
-        must(jose_jwe_enc(cfg, j, NULL, dir, pt, strlen(pt)), "dir enc");
-        json_object_set_new(jwes, "dir", j);
+        json_object_set_new(jwes, "dir", must(jose_jwe_enc(cfg, j, NULL, dir, pt, strlen(pt)), "dir enc") ? j : (json_decref(j), json_null()));
 
         j = json_pack("{s:{s:s,s:s}}", "protected", "alg", "ECDH-ES", "enc", "A128GCM");
-        must(jose_jwe_enc(cfg, j, NULL, ecpub, pt, strlen(pt)), "ECDH-ES enc");
-        json_object_set_new(jwes, "ECDH-ES", j);
+        json_object_set_new(jwes, "ECDH-ES", must(jose_jwe_enc(cfg, j, NULL, ecpub, pt, strlen(pt)), "ECDH-ES enc") ? j : (json_decref(j), json_null()));
 
         /* general form: two recipients from one call with a key array and a shared template */
         j = json_pack("{s:{s:s}}", "protected", "enc", "A128CBC-HS256");
         json_t *t = json_pack("{s:{s:s}}", "header", "x", "shared");
         json_t *ks = json_pack("[OO]", kw, ecpub);
-        must(jose_jwe_enc(cfg, j, t, ks, pt, strlen(pt)), "multi enc");
-        json_object_set_new(jwes, "multi", j);
+        json_object_set_new(jwes, "multi", must(jose_jwe_enc(cfg, j, t, ks, pt, strlen(pt)), "multi enc") ? j : (json_decref(j), json_null()));
         json_decref(t);
         json_decref(ks);
     }
@@ -397,12 +394,14 @@ c_c17mk(void)
     {
         json_t *c = jose_jwe_dec_jwk(cfg, json_object_get(jwes, "A128KW"), NULL, kw);
         must(c != NULL, "dec_jwk A128KW");
-        json_object_set_new(ceks, "A128KW", c);
+        json_object_set_new(ceks, "A128KW", c ? c : json_null());
         c = jose_jwe_dec_jwk(cfg, json_object_get(jwes, "dir"), NULL, dir);
         must(c != NULL, "dec_jwk dir");
-        json_object_set_new(ceks, "dir", c);
+        json_object_set_new(ceks, "dir", c ? c : json_null());
     }
     json_object_set_new(out, "cek", ceks);
+    json_object_set_new(out, "failed", mk_failed);
+    mk_failed = NULL;
 
     putjson(out);
     json_decref(out);
